@@ -22,7 +22,9 @@ Definition parse_cmd (line0 : bytes) : option (bytes * bytes) :=
   else Some (to_upper (firstn 4 line), trim_space (skipn 5 line)).
 
 (* parseArgs: association list key -> value in order of first occurrence of
-   the key, a later duplicate overwriting the value (map semantics) *)
+   the key, a later duplicate overwriting the value (map semantics).  Keys are
+   upper-cased ASCII-only (upperASCII); "KEY=" is an error, so an empty value
+   in the result always stands for a bare "KEY". *)
 Fixpoint assoc_set (k v : bytes) (m : list (bytes * bytes)) : list (bytes * bytes) :=
   match m with
   | [] => [(k, v)]
@@ -34,8 +36,12 @@ Fixpoint parse_args_go (fs : list bytes) (m : list (bytes * bytes)) : option (li
   | [] => Some m
   | a :: r =>
       match split_byte "=" a with
-      | [k; v] => parse_args_go r (assoc_set (to_upper k) v m)
-      | [k] => parse_args_go r (assoc_set (to_upper k) [] m)
+      | [k; v] =>
+          match v with
+          | [] => None                       (* "KEY=": an esmtp-value is never empty *)
+          | _ => parse_args_go r (assoc_set (to_upper_ascii k) v m)
+          end
+      | [k] => parse_args_go r (assoc_set (to_upper_ascii k) [] m)
       | _ => None
       end
   end.
